@@ -104,15 +104,22 @@ CFG = {
     "trusted_base": [
         "Hy.Model.Ring / Hy.Model.Pnq are tied to ringbuffer.go / packet_number_indexed_queue.go by an exact differential on "
         "the raw representation (backing slice, headPos, tailPos, full, numberOfPresentEntries, firstPacket) after every op",
-        "Hy.Model.BbrCore is tied to bbr_sender.go by trace validation: per call the harness records what the real "
-        "bandwidthSampler returned (by running the real OnCongestionEvent on a copy of the sampler taken just before the call), "
-        "the filter's best bandwidth, rttStats.MinRTT() and the float-scaled values (getTargetCongestionWindow(gain) via the real "
-        "method; gain*bw, bw*1.25, inflight*0.02 and the float->int64 conversion of the pacing rate by the same Go expression on "
-        "the recorded operands); the model replays the step and must reproduce all 33 control fields plus GetCongestionWindow, "
-        "bandwidthForPacer, CanSend(0) and leastUnacked",
-        "the bandwidth sampler, the windowed filters and IEEE float arithmetic are NOT modelled: their results are universally "
-        "quantified inputs (`Env`) of every theorem (over-approximation, sound for safety)",
-        "int64/uint64 arithmetic does not overflow (byte counters of one connection < 2^62, bandwidth x idle time < 2^63 in the pacer)",
+        "Hy.Model.BbrSampler (bandwidth_sampler.go + windowed_filter.go, with Go's wrapping int64/uint64 arithmetic and truncating "
+        "divisions; the one float expression threshold*float64(x) with threshold in {1,2}, |x| < 2^31 is an exact integer product) and "
+        "the sender's max-bandwidth filter are tied to the code by an EXACT differential inside the bbr stream: after every call the "
+        "model's sampler state (byte totals, last acked/sent packet state, app-limited flag and end marker, slots / firstPacket / present "
+        "entries of the packet map, number of A0 candidates, recent ack points, aggregation epoch, the three ack-height estimates, the "
+        "three max-bandwidth estimates) and the sample returned for the event (obtained from the real sampler by running the real "
+        "OnCongestionEvent on a copy taken just before the call) are compared with the implementation's",
+        "Hy.Model.BbrCore is tied to bbr_sender.go by trace validation with the sampler COMPUTED by the model; only rttStats.MinRTT() and "
+        "the float-scaled values are recorded from the implementation (getTargetCongestionWindow(gain) via the real method; gain*bw, "
+        "bw*1.25, inflight*0.02, the maybeAppLimited decision and the float->int64 conversion of the pacing rate by the same Go expression "
+        "on the recorded operands); the model must reproduce all 33 control fields plus GetCongestionWindow, bandwidthForPacer, CanSend(0) "
+        "and leastUnacked.  On the long fat-path traces (stream bbrfat, 20000 packets in flight) the sampler outputs are recorded as well",
+        "IEEE float arithmetic is NOT modelled: float-scaled results are universally quantified inputs (`Env`) of every theorem of layer "
+        "(b) (over-approximation, sound for safety); the theorems of layer (b) also quantify over all sampler outputs",
+        "control logic (layer b) and pacer: int64/uint64 arithmetic does not overflow (byte counters of one connection < 2^62, bandwidth x "
+        "idle time < 2^63 in the pacer); the sampler model (layer c) wraps exactly as Go does",
         "QUIC-consistency is pinned to quic-go's sent_packet_handler.go: OnCongestionEventEx only with a non-empty acked U lost set; "
         "datagram size non-decreasing; SetRTTStatsProvider called at installation; MinRTT() != 0 once a bandwidth sample exists "
         "(hysteria installs the controller after the handshake; RTTStats.minRTT is never reset to 0); the seed datagram size is "
@@ -141,9 +148,14 @@ MANIFEST = {
             "announced wake-up time grants a full datagram — with the sampler's outputs and all float-scaled quantities as "
             "arbitrary inputs. Tied to the source by regenerated constants + panic-site counts, an exact differential on the "
             "containers, and trace validation of the sender on ~300 (quick) / 20 000 (thorough) simulated connections with "
-            "model-free oracles on the real code after every call.",
+            "model-free oracles on the real code after every call. Layer (c): exact executable model of the bandwidth sampler and the "
+            "windowed filters (wrapping integer arithmetic), compared field by field with the real sampler after every call; theorems: the "
+            "sampler never panics for any call sequence with packet numbers >= -1 and int64 times, its per-packet bandwidth sample is "
+            "min(send rate, ack rate) <= send rate, its entries are bounded through the queue theorem after RemoveObsoletePackets, and the "
+            "windowed filter's best estimate is a fed sample that dominates every later sample and is never older than the window (it is "
+            "NOT the exact window maximum: decide-checked counterexample).",
     "note": "Trusted: Lean kernel (+leanchecker), axioms propext/Quot.sound/Classical.choice at most; the Go harness (simulator, "
-            "sampler-copy replay) and hydrv; sampler/filters/floats are inputs, not modelled; no int64 overflow. NOT proved: "
+            "sampler-copy replay) and hydrv; floats are inputs, not modelled; no int64 overflow in the control logic. NOT proved: "
             "'does not settle far below capacity' (delivered/capacity per profile reported as supporting evidence only); "
             "a0Candidates growth (measured). Residual risk: the implementation differs from the model on a trace the simulator "
             "did not draw.",
